@@ -18,7 +18,7 @@ from harness.core import MachineryError, PY, VERIF, REPO
 from harness.tlc import run_tlc, cases, validate_traces
 
 META = dict(
-    spec='NoExec.tla, ProjConfig.tla, Trace_NoExec.tla',
+    spec='NoExec.tla, ProjConfig.tla, EnvSafe.tla, Trace_NoExec.tla',
     text='TLC checks the whole load-decision table (6 module kinds x 3 locations x 3 name classes x 3 sys.path '
          'options x smart_sys_path x load_unsafe_extensions = 648 rows, 3288 states): project code is never imported '
          'unless the project opted in, Python sources are only parsed, the host sys.path is restored also when the '
@@ -177,6 +177,71 @@ def session_start_leg(ctx):
         raise MachineryError('tree code ran but the Design as coded does not predict it')
 
 
+# ---------------------------------------------------------------- EnvSafe.tla: interpreter discovery
+ECFG = """SPECIFICATION Spec
+CONSTANTS
+  SafeCheckOn = %s
+%s
+CHECK_DEADLOCK FALSE
+"""
+
+
+def env_discovery_leg(ctx):
+    def ecfg(name, on, body):
+        p = os.path.join(ctx.tmp, name)
+        with open(p, 'w') as f:
+            f.write(ECFG % (on, body))
+        return p
+    res = run_tlc('EnvSafe', ecfg('es.cfg', 'TRUE', 'INVARIANT UnknownNeverRunWhenSafe'), workers=2, timeout=600)
+    ctx.add_tlc(res, 'interpreter discovery: an unknown executable is never run when safe=True')
+    if res.violated:
+        ctx.violation('design:UnknownNeverRunWhenSafe', 'EnvSafe.tla violates UnknownNeverRunWhenSafe', {'trace': res.trace[-2:]})
+        return
+    res = run_tlc('EnvSafe', ecfg('es_wi.cfg', 'FALSE', 'INVARIANT UnknownNeverRunWhenSafe'), workers=2, timeout=600)
+    ctx.add_tlc(res, 'what-if: no safety check (must fail)')
+    if res.violated != 'UnknownNeverRunWhenSafe':
+        raise MachineryError('EnvSafe.tla without the safety check should run the unknown executable')
+    res = run_tlc('EnvSafe', ecfg('es_emit.cfg', 'TRUE', 'CONSTRAINT Emit'), workers=1, timeout=600)
+    ctx.add_tlc(res, 'interpreter-discovery table emission')
+    rows = cases(res)
+    admin = os.geteuid() == 0
+    system_python = next((p for p in ('/usr/bin/python3.11', '/usr/bin/python3.12', '/usr/bin/python3.10', '/usr/bin/python3.13',
+                                      '/usr/bin/python3.9') if os.path.exists(p)), None)
+    # the process cannot change who it is, and a byte copy of an interpreter cannot tell that it ran: those rows stay
+    # model-only
+    todo = [r for r in rows if r['admin'] == admin and r['cand'] != 'copy_system'
+            and (r['cand'] != 'symlink_system' or system_python)]
+    ctx.coverage['env_discovery_rows'] = len(rows)
+    ctx.coverage['env_discovery_rows_replayed'] = len(todo)
+    if len(todo) < 10:
+        raise MachineryError('interpreter-discovery table: only %d rows replayable' % len(todo))
+    d = ctx.sub('c12env')
+    env = dict(os.environ, VERIF_REPO=REPO, PYTHONPATH=os.pathsep.join([REPO, VERIF]), C12_TMP=d)
+    for k in ('VIRTUAL_ENV', 'CONDA_PREFIX'):
+        env.pop(k, None)
+    procs = []
+    for i, r in enumerate(todo):
+        jp, op = os.path.join(d, 'j%d.json' % i), os.path.join(d, 'o%d.json' % i)
+        with open(jp, 'w') as f:
+            json.dump(dict(r, system_python=system_python), f)
+        procs.append((r, subprocess.Popen([PY, os.path.join(VERIF, 'harness', 'c12env_worker.py'), jp, op], env=env, cwd=d,
+                                          stdout=subprocess.PIPE, stderr=subprocess.STDOUT), op))
+    for r, p, op in procs:
+        so, _ = p.communicate(timeout=900)
+        if p.returncode != 0 or not os.path.exists(op):
+            raise MachineryError('c12env worker failed: %s' % so.decode()[-1500:])
+        o = json.load(open(op))
+        shape = 'cand=%s,entry=%s,safe=%s' % (r['cand'], r['entry'], r['safe'])
+        if r['cand'] == 'unknown':
+            if o['sentinel_ran'] != r['ran']:
+                ctx.drift({'env_discovery_row': shape, 'model_ran': r['ran'], 'code_ran': o['sentinel_ran'], 'outcome': o['outcome']})
+            if r['safe'] and o['sentinel_ran']:
+                ctx.violation('env-discovery:unknown-executable-run:%s' % r['entry'], 'an executable shipped by the analysed tree was '
+                              'run although safe=True', {'row': r, 'observed': o})
+        elif o['outcome'] != r['outcome']:
+            ctx.drift({'env_discovery_row': shape, 'model': r['outcome'], 'code': o['outcome']})
+
+
 def run(ctx):
     quick = ctx.quick
     body = '\n'.join('INVARIANT ' + i for i in ('NoProjectExec', 'SourcesOnlyParsed', 'PathRestored')) + \
@@ -252,4 +317,5 @@ def run(ctx):
         raise MachineryError('binding self-test: executed project module accepted')
     ctx.coverage['binding_selftest'] = 'executed project module rejected: %s' % bv[0]['why']
     session_start_leg(ctx)
+    env_discovery_leg(ctx)
     return None
